@@ -10,6 +10,15 @@
 
    [None] = the call raises (TypeError escaping from the except-handler of the mixed-kind fallback).
 
+   Partiality of the real code.  [enc] is a total function on [value] (structural recursion); the
+   pure-Python pickler recurses on the Python stack (about four frames per nesting level), so for
+   values nested a few hundred levels deep (about 250 at the default recursion limit, fewer from a deep
+   call stack) Hasher.dump raises RecursionError and joblib.hash returns NO digest.  Every theorem about
+   [enc] / [enc_top] speaks about the values for which dump terminates normally: there the bytes are
+   [enc_top v], whatever the recursion limit and the depth of the calling stack (checked by
+   harness/impl/c08_deep_impl.py on nestings of 50..2000 levels; a RecursionError is accepted, a digest
+   that differs from the one computed with room for the recursion is a violation).
+
    Conventions.  byte = Z in [0,256).  VStr carries the UTF-8 ('surrogatepass') bytes of the str;
    str comparison is modelled as comparison of these bytes (UTF-8 preserves code-point order; trusted,
    sampled by the check).  VFloat carries the IEEE-754 binary64 bit pattern as a Z in [0,2^64).
